@@ -323,6 +323,23 @@ P('C19',
   assumptions=COMMON_ASSUME + ['hook.patch applied to daemon/proxyd.c (guard ZVBI_VERIF)', 'see proxy/NOTES.md section 8'],
   )
 
+P('C20',
+  variant='tsan',
+  watchdog=120,
+  states_termination=True,
+  technique='schedule fuzzing under ThreadSanitizer: generated operation streams and yield / sleep points for 2-4 threads on one decoder; oracle = TSan happens-before race detection, snapshot consistency against the sequential execution, one-consistent-service-set predicate, deadlock watchdog',
+  rule='schedule = (part, per-thread operation streams, generated yields / microsleeps). Part A: decoding thread feeds 40-400 caption pairs one per vbi_decode call (pop-on, roll-up, paint-on, text; an event handler yields where the '
+       'library has dropped its mutex), 1-2 threads call vbi_fetch_cc_page (channels 1-4, reset on / off) and in a third of the cases vbi_channel_switched. Part B: decoding thread calls vbi_raw_decode 20-140 times on a generated multi-service image, '
+       '1-2 threads call vbi_raw_decoder_add_services / _remove_services / _check_services. Non-trivial: a fetch or service change overlapped the decoding thread (sequence counters); distinct = hash of consumed choices.',
+  level_text='Sampled schedules on the real threads with explicit oracles: ThreadSanitizer must stay silent (a race on an executed path is reported without having to manifest), every caption page fetched concurrently must hash to one of the '
+             'pages the sequential execution of the same stream produces for that channel (cases without channel switch), every raw decode result must consist of all transmitted lines of exactly the services that appear in it, '
+             'and all threads must finish (watchdog 120 s, confirmed by replays). Interleavings are sampled by the OS scheduler plus generated yields, not enumerated.',
+  level_note='Trusted: ThreadSanitizer runtime; the sequential reference runs of the same library. vbi_raw_decoder_resize is not in the concurrent set (vbi_raw_decode reads count[] before taking the mutex; the statement lists add / remove / check only). Cases with vbi_channel_switched are judged by TSan and the watchdog only.',
+  design_ref='DESIGN.md section 2, C20',
+  quick=dict(cases=20000, max_size=1500, max_seconds=120),
+  thorough=dict(cases=600000, max_size=1500, max_seconds=1500),
+  )
+
 NOT_YET = {}
 
 
